@@ -41,6 +41,96 @@ Proof.
   - destruct (mem t labels); cbn [fst]; [|exact H12]. eapply extends_trans; [exact H12|]. apply IH.
 Qed.
 
+Lemma odowhile_extends n labels e body : forall s L acc, ext3 s (odowhile eval truthy exec n labels e body s L acc).
+Proof.
+  induction n as [|n IH]; intros s L acc; cbn [odowhile]; [apply extends_refl|].
+  pose proof (olist_extends body s L OEmpty) as H2. unfold ext3 in *.
+  destruct (olist exec s L OEmpty body) as [[s1 L1] r1]; cbn [fst] in *.
+  destruct r1 as [o|v'|]; cbn [fst]; try exact H2.
+  assert (Hag : forall acc', extends s (fst (fst (match eval s1 e with
+        | (s', inr x) => (s', L1, OExn x)
+        | (s', inl v) => if truthy v then odowhile eval truthy exec n labels e body s' L1 acc' else (s', L1, ONorm acc')
+        end)))).
+  { intros acc'. pose proof (eval_extends e s1) as H1.
+    destruct (eval s1 e) as [s' [v|x]]; cbn [fst] in *; [|eapply extends_trans; eassumption].
+    destruct (truthy v); cbn [fst]; [|eapply extends_trans; eassumption].
+    eapply extends_trans; [exact H2|]. eapply extends_trans; [exact H1|]. apply IH. }
+  destruct o as [|w|t|t|w]; cbn [fst]; try exact H2; try apply Hag.
+  - destruct (mem t labels); exact H2.
+  - destruct (mem t labels); cbn [fst]; [apply Hag|exact H2].
+Qed.
+
+Lemma ofor_extends n labels test upd body : forall s L acc, ext3 s (ofor eval truthy tick exec n labels test upd body s L acc).
+Proof.
+  induction n as [|n IH]; intros s L acc; cbn [ofor]; [apply extends_refl|]. unfold ext3 in *.
+  assert (Hgo : forall s'', extends s'' (fst (fst (
+        match olist exec s'' L OEmpty body with
+        | (s1, L1, ONorm o) =>
+          match o with
+          | OBrk t => if mem t labels then (s1, L1, ONorm acc) else (s1, L1, ONorm o)
+          | OCont t => if mem t labels then
+              match upd with
+              | Some u => match eval s1 u with
+                          | (s2, inl _) => ofor eval truthy tick exec n labels test upd body s2 L1 acc
+                          | (s2, inr x) => (s2, L1, OExn x)
+                          end
+              | None => ofor eval truthy tick exec n labels test upd body s1 L1 acc
+              end else (s1, L1, ONorm o)
+          | ORet _ => (s1, L1, ONorm o)
+          | OEmpty =>
+              match upd with
+              | Some u => match eval s1 u with
+                          | (s2, inl _) => ofor eval truthy tick exec n labels test upd body s2 L1 acc
+                          | (s2, inr x) => (s2, L1, OExn x)
+                          end
+              | None => ofor eval truthy tick exec n labels test upd body s1 L1 acc
+              end
+          | OVal _ =>
+              match upd with
+              | Some u => match eval s1 u with
+                          | (s2, inl _) => ofor eval truthy tick exec n labels test upd body s2 L1 o
+                          | (s2, inr x) => (s2, L1, OExn x)
+                          end
+              | None => ofor eval truthy tick exec n labels test upd body s1 L1 o
+              end
+          end
+        | r => r
+        end)))).
+  { intros s''. pose proof (olist_extends body s'' L OEmpty) as H2. unfold ext3 in H2.
+    destruct (olist exec s'' L OEmpty body) as [[s1 L1] r1]; cbn [fst] in *.
+    destruct r1 as [o|v'|]; cbn [fst]; try exact H2.
+    assert (Hag : forall acc', extends s'' (fst (fst (
+              match upd with
+              | Some u => match eval s1 u with
+                          | (s2, inl _) => ofor eval truthy tick exec n labels test upd body s2 L1 acc'
+                          | (s2, inr x) => (s2, L1, OExn x)
+                          end
+              | None => ofor eval truthy tick exec n labels test upd body s1 L1 acc'
+              end)))).
+    { intros acc'. destruct upd as [u|].
+      - pose proof (eval_extends u s1) as H1.
+        destruct (eval s1 u) as [s2 [v|x]]; cbn [fst] in *; [|eapply extends_trans; eassumption].
+        eapply extends_trans; [exact H2|]. eapply extends_trans; [exact H1|]. apply IH.
+      - eapply extends_trans; [exact H2|]. apply IH. }
+    destruct o as [|w|t|t|w]; cbn [fst]; try exact H2; try apply Hag.
+    - destruct (mem t labels); exact H2.
+    - destruct (mem t labels); cbn [fst]; [apply Hag|exact H2]. }
+  destruct test as [e|].
+  - pose proof (eval_extends e s) as H1.
+    destruct (eval s e) as [s' [v|x]]; cbn [fst] in *; [|exact H1].
+    destruct (truthy v); cbn [fst]; [|exact H1].
+    destruct body as [|b0 bs].
+    + pose proof (tick_extends s') as Ht. destruct (tick s') as [s'' [x|]]; cbn [fst] in *.
+      * eapply extends_trans; eassumption.
+      * eapply extends_trans; [exact H1|]. eapply extends_trans; [exact Ht|]. apply Hgo.
+    + eapply extends_trans; [exact H1|]. apply Hgo.
+  - destruct body as [|b0 bs].
+    + pose proof (tick_extends s) as Ht. destruct (tick s) as [s'' [x|]]; cbn [fst] in *.
+      * exact Ht.
+      * eapply extends_trans; [exact Ht|]. apply Hgo.
+    + apply Hgo.
+Qed.
+
 Lemma oblock_extends l s L : ext3 s (oblock exec s L l).
 Proof.
   unfold oblock. pose proof (olist_extends l s [] OEmpty) as H. unfold ext3 in *.
@@ -56,7 +146,7 @@ Proof.
   pose proof (tick_extends s) as Ht. destruct (tick s) as [s0 [h|]]; cbn [fst] in *; [exact Ht|].
   assert (Hblk : forall s1 L1 l, extends s1 (fst (fst (oblock (exec_o fuel) s1 L1 l)))).
   { intros. apply (oblock_extends _ IH). }
-  destruct x as [e|l|e s1 s2|e body|l|l|e|l x|e|b c f].
+  destruct x as [e|l|e s1 s2|e body|body e|init test upd body|l|l|e|l x|e|b c f].
   - pose proof (eval_extends e s0) as H. destruct (eval s0 e) as [s1 [v|x]]; cbn [fst] in *; eapply extends_trans; eassumption.
   - eapply extends_trans; [exact Ht|]. apply Hblk.
   - pose proof (eval_extends e s0) as H. destruct (eval s0 e) as [s' [v|x]]; cbn [fst] in *; [|eapply extends_trans; eassumption].
@@ -66,6 +156,13 @@ Proof.
       * eapply extends_trans; [exact Ht|]. eapply extends_trans; [exact H|]. apply IH.
       * eapply extends_trans; eassumption.
   - eapply extends_trans; [exact Ht|]. apply (owhile_extends _ IH).
+  - eapply extends_trans; [exact Ht|]. apply (odowhile_extends _ IH).
+  - pose proof (tick_extends s0) as Hq. destruct (tick s0) as [sq [xq|]]; cbn [fst] in *; [eapply extends_trans; eassumption|].
+    assert (Htq : extends s sq) by (eapply extends_trans; eassumption).
+    destruct init as [i|].
+    + pose proof (eval_extends i sq) as H. destruct (eval sq i) as [s1 [v|x]]; cbn [fst] in *; [|eapply extends_trans; eassumption].
+      eapply extends_trans; [exact Htq|]. eapply extends_trans; [exact H|]. apply (ofor_extends _ IH).
+    + eapply extends_trans; [exact Htq|]. apply (ofor_extends _ IH).
   - exact Ht.
   - exact Ht.
   - pose proof (eval_extends e s0) as H. destruct (eval s0 e) as [s1 [v|x]]; cbn [fst] in *; eapply extends_trans; eassumption.
